@@ -2066,9 +2066,9 @@ fn strat_bulk(t: Tier) -> BoxedStrategy<Case> {
                 .collect();
             let mut e0 = SheetExtra::default();
             for k in 0..n_strings {
-                e0.cells.push(CellSpec { col: 1 + (k % 4) as u32, row: 100 + (k / 4) as u32, value: ValueSpec::Text(format!("s{}{}", k, suffix)), formula: None });
+                e0.cells.push(CellSpec { col: 1 + (k % 4) as u32, row: 100 + (k / 4) as u32, value: ValueSpec::Text(format!("s{}{}", k, suffix)), formula: None, via_set_cell: false });
             }
-            e0.cells.push(CellSpec { col: 6, row: 100, value: ValueSpec::Text(std::iter::repeat(long_ch).take(if long_ch == '😀' { 16383 } else { 32767 }).collect()), formula: None });
+            e0.cells.push(CellSpec { col: 6, row: 100, value: ValueSpec::Text(std::iter::repeat(long_ch).take(if long_ch == '😀' { 16383 } else { 32767 }).collect()), formula: None, via_set_cell: false });
             for k in 0..n_styles {
                 let raw = (((k as u64) << 16) + n_styles as u64 - 1) / n_styles as u64;
                 e0.styled.push((StyleTarget::Cell(8 + (k % 5) as u32, 100 + (k / 5) as u32), raw.min(65535) as u16));
@@ -2082,7 +2082,7 @@ fn strat_bulk(t: Tier) -> BoxedStrategy<Case> {
                 e.tables = tables.clone();
                 e.image = k == 9;
                 e.chart = k == 10;
-                e.cells.push(CellSpec { col: 1, row: 1, value: ValueSpec::Text(format!("sheet {}", k + 1)), formula: None });
+                e.cells.push(CellSpec { col: 1, row: 1, value: ValueSpec::Text(format!("sheet {}", k + 1)), formula: None, via_set_cell: false });
                 extra.push(e);
             }
             steer_case(fixup(Case { annot, extra, styles, macros, light, steered: Vec::new(), history, doc_props: vec![suffix.clone(), "A&B <c>".into(), "line1\nline2".into()] }), steer_clean())
